@@ -17,7 +17,7 @@ ASSUMPTIONS = cc.ASSUMPTIONS_CORE
 
 
 def extra(tier, rng):
-    return []
+    return [cc.cancel_case(na, nb, h, we) for na in (1, 2, 3, 4) for nb in (1, 2, 3) for h in (0, 1) for we in (0, 1)]
 
 
 def plan(tier, seed):
